@@ -189,7 +189,7 @@ func CheckMain(args []string) int {
 	secs := 10
 	all := false
 	if *tier == "thorough" {
-		secs = 60
+		secs = 30
 		all = true
 	}
 	work := filepath.Join(*root, "work", *prop)
